@@ -64,10 +64,12 @@ ARGV_SHAPES = [
     # part); the processed header lands in one of them
     ["--config", "cb.toml", "-o", "{out}", "--crate", "foo", "--output", "{out2}", "-l", "C"],
     ["-o", "{out}", "-o", "{out2}", "--crate", "foo", "-l", "C"],
+    # no output path: the processed header goes to standard output
+    ["--config", "cb.toml", "--crate", "foo", "-l", "C"],
 ]
 
 
-def run_tool(workdir, header_path, config, argv_shape, hash_seed, fail=False, tag="", keep_existing=False):
+def run_tool(workdir, header_path, config, argv_shape, hash_seed, fail=False, tag="", keep_existing=False, nightly=False):
     out_path = os.path.join(workdir, "out%s-%d.h" % (tag, hash_seed))
     argv_log = os.path.join(workdir, "argv%s-%d.txt" % (tag, hash_seed))
     for pth in (out_path, argv_log):
@@ -80,6 +82,9 @@ def run_tool(workdir, header_path, config, argv_shape, hash_seed, fail=False, ta
             for k in sorted(config):
                 f.write('%s = "%s"\n' % (k, config[k]))
         pre = ["-c", cpath]
+    if nightly:
+        # `+nightly` before `--` configures the tool: cbindgen is started through `rustup run nightly`
+        pre = ["+nightly"] + pre
     out2_path = os.path.join(workdir, "second%s-%d.h" % (tag, hash_seed))
     if os.path.exists(out2_path):
         os.remove(out2_path)
@@ -99,6 +104,15 @@ def run_tool(workdir, header_path, config, argv_shape, hash_seed, fail=False, ta
         with open(argv_log) as f:
             seen = f.read().split("\n")[:-1]
     output = None
+    to_stdout = "{out}" not in " ".join(ARGV_SHAPES[argv_shape])
+    if to_stdout and p.returncode == 0:
+        with open(out_path, "w") as f:
+            f.write(p.stdout)
+        p.stdout = ""
+    if nightly and seen[:1] == ["via-rustup:nightly"]:
+        seen = seen[1:]
+    elif nightly:
+        seen = ["<cbindgen was not started through `rustup run nightly`>"] + seen
     if not os.path.exists(out_path) and os.path.exists(out2_path):
         # "last one wins" would be as good a reading of a repeated output argument as "first one wins"
         out_path = out2_path
@@ -144,8 +158,9 @@ def eval_case(case, keep_dir=None):
         outs = {}
         first = None
         for hs in case["hash_seeds"]:
-            r = run_tool(d, hp, config, case["argv"], hs)
+            r = run_tool(d, hp, config, case["argv"], hs, nightly=bool(case.get("nightly")))
             stats["tool_runs"] += 1
+            stats["fault.via_rustup_nightly"] = stats.get("fault.via_rustup_nightly", 0) + (1 if case.get("nightly") else 0)
             stats["fault.hash_seed"] += 1
             if first is None:
                 first = r
@@ -258,6 +273,7 @@ def case_for(seed, i, tier):
         "probe_fail": r.chance(1, 10),
         "rewrite": r.chance(1, 4),
         "lang": "cpp" if i % 4 == 3 else "c",
+        "nightly": r.chance(1, 5),
     }
 
 
@@ -378,7 +394,7 @@ def phase_bindgen(prop, tier, seed, report):
         "runs_per_hour": int(n / wall * 3600) if wall > 0 else 0,
         "tool_processes": stats.get("tool_runs", 0), "cc_syntax_checks": stats.get("cc_runs", 0), "cpp_mode_runs": stats.get("cpp_headers", 0),
         "distinct_outputs": len(digests), "distinct_model_shapes (traits, contexts, leftover, config, argv)": len(shapes),
-        "faults_fired": {"hash_seed": stats.get("fault.hash_seed", 0), "subprocess_fail": stats.get("fault.subprocess_fail", 0), "rewrite_existing_output": stats.get("fault.rewrite_existing_output", 0)},
+        "faults_fired": {"hash_seed": stats.get("fault.hash_seed", 0), "subprocess_fail": stats.get("fault.subprocess_fail", 0), "rewrite_existing_output": stats.get("fault.rewrite_existing_output", 0), "cbindgen_started_through_rustup_nightly": stats.get("fault.via_rustup_nightly", 0)},
         "probes": {"tool_nonzero_when_cbindgen_fails": stats.get("probe.tool_nonzero_when_cbindgen_fails", 0)},
     })
     report["samples"] += [{"engine": "gensim.bindgen", "case": {k: v for k, v in cases[i].items()}, "model": hdrgen.describe(hdrgen.gen_model(cases[i]["model_seed"]))} for i in (0, n // 2)]
